@@ -68,6 +68,9 @@ type PQ struct {
 }
 
 func NewPQ(e *Env, d *simdisk.Disk, cfg Cfg) *PQ {
+	if cfg.PQRootOff > 0 && cfg.PQRootOff+pq.SzRoot > cfg.PageSize {
+		cfg.PQRootOff = cfg.PageSize - pq.SzRoot // the page size was changed after the offset was drawn
+	}
 	return &PQ{E: e, D: d, Cfg: cfg, rdCur: -1, Prop: "C05"}
 }
 
@@ -126,7 +129,7 @@ func (p *PQ) Open() error {
 }
 
 func (p *PQ) openQueue() error {
-	dg, err := pq.NewStandaloneDelegate(p.F)
+	dg, err := newQueueDelegate(p.F, p.Cfg)
 	if err != nil {
 		return err
 	}
@@ -552,6 +555,7 @@ func (p *PQ) Reopen() {
 	}
 	e.Probe("pq_reopen")
 	p.afterRestart(flushed)
+	p.checkAppData("after reopen")
 }
 
 // afterRestart resets the volatile parts of the model: the reader restarts at
@@ -789,6 +793,10 @@ func DrawPQCfg(rng *simsched.Rand, bounded bool) Cfg {
 	c.InitMeta = []int{0, 0, 2, 4}[rng.Intn(4)]
 	c.WriteBuf = []int{0, 0, 8, 16}[rng.Intn(4)] * c.PageSize
 	c.PQObserver = rng.Intn(2) == 0
+	if rng.Intn(5) == 0 {
+		// the queue header shares its page with application data
+		c.PQRootOff = []int{8, 64, 200, c.PageSize - pq.SzRoot, c.PageSize - pq.SzRoot - 4}[rng.Intn(5)]
+	}
 	if rng.Intn(16) == 0 {
 		c.IDBase = []uint64{1<<63 - 1, 1<<63 - 3, 1<<63 - 9, ^uint64(0) - 2, ^uint64(0) - 7, 1<<32 - 2}[rng.Intn(6)] - uint64(rng.Intn(20))
 	}
@@ -817,7 +825,7 @@ func (o *pqObserver) OnQueueACK(uintptr, pq.ACKStats)   { o.acks++ }
 // the empty queue (head, tail and read position ids of the root header, see
 // pq/layout.go: version u32, then three (offset u64, id u64) positions).
 func (p *PQ) rebaseIDs() error {
-	if _, err := pq.NewStandaloneDelegate(p.F); err != nil {
+	if _, err := newQueueDelegate(p.F, p.Cfg); err != nil {
 		return err
 	}
 	tx, err := p.F.Begin()
@@ -834,7 +842,7 @@ func (p *PQ) rebaseIDs() error {
 		return err
 	}
 	nb := append([]byte(nil), b...)
-	for _, off := range []int{4, 20, 36} {
+	for _, off := range []int{p.Cfg.PQRootOff + 4, p.Cfg.PQRootOff + 20, p.Cfg.PQRootOff + 36} {
 		if binary.LittleEndian.Uint64(nb[off:]) != 0 {
 			return fmt.Errorf("queue is not empty: position at byte %d has a page offset", off)
 		}
@@ -844,4 +852,96 @@ func (p *PQ) rebaseIDs() error {
 		return err
 	}
 	return tx.Commit()
+}
+
+// sharedDelegate embeds the queue header at a byte offset of a page that also
+// holds application data (pq.Delegate allows any root offset). The page is the
+// file's root page. Transactions are configured like the standalone delegate's.
+type sharedDelegate struct {
+	file *txfile.File
+	root txfile.PageID
+	off  uintptr
+}
+
+// appByte is the application data pattern of the shared root page.
+func appByte(i int) byte { return byte(0xA0 ^ (i * 7)) }
+
+// newQueueDelegate returns the standalone delegate, or (Cfg.PQRootOff > 0) a
+// delegate whose queue header sits inside a shared page.
+func newQueueDelegate(f *txfile.File, cfg Cfg) (pq.Delegate, error) {
+	if cfg.PQRootOff <= 0 {
+		return pq.NewStandaloneDelegate(f)
+	}
+	tx, err := f.Begin()
+	if err != nil {
+		return nil, err
+	}
+	defer tx.Close()
+	root := tx.Root()
+	if root == 0 {
+		page, err := tx.Alloc()
+		if err != nil {
+			return nil, err
+		}
+		buf := make([]byte, f.PageSize())
+		for i := range buf {
+			buf[i] = appByte(i)
+		}
+		hdr := pq.MakeRoot()
+		copy(buf[cfg.PQRootOff:], hdr[:])
+		if err := page.SetBytes(buf); err != nil {
+			return nil, err
+		}
+		tx.SetRoot(page.ID())
+		root = page.ID()
+		if err := tx.Commit(); err != nil {
+			return nil, err
+		}
+	}
+	return &sharedDelegate{file: f, root: root, off: uintptr(cfg.PQRootOff)}, nil
+}
+
+func (d *sharedDelegate) PageSize() int                          { return d.file.PageSize() }
+func (d *sharedDelegate) Root() (txfile.PageID, uintptr)         { return d.root, d.off }
+func (d *sharedDelegate) Offset(id txfile.PageID, o uintptr) uintptr { return d.file.Offset(id, o) }
+func (d *sharedDelegate) SplitOffset(o uintptr) (txfile.PageID, uintptr) {
+	return d.file.SplitOffset(o)
+}
+func (d *sharedDelegate) BeginWrite() (*txfile.Tx, error) {
+	return d.file.BeginWith(txfile.TxOptions{WALLimit: 3})
+}
+func (d *sharedDelegate) BeginRead() (*txfile.Tx, error) { return d.file.BeginReadonly() }
+func (d *sharedDelegate) BeginCleanup() (*txfile.Tx, error) {
+	return d.file.BeginWith(txfile.TxOptions{EnableOverflowArea: true, WALLimit: 3})
+}
+
+// checkAppData verifies that the application bytes around an embedded queue
+// header are untouched.
+func (p *PQ) checkAppData(when string) {
+	if p.Cfg.PQRootOff <= 0 || p.F == nil || p.E.Failed() || p.rdActive {
+		return
+	}
+	tx, err := p.F.BeginReadonly()
+	if err != nil {
+		p.fail("app-data", "%s: BeginReadonly failed: %v", when, err)
+		return
+	}
+	defer tx.Close()
+	pg, err := tx.Page(tx.Root())
+	if err != nil {
+		p.fail("app-data", "%s: root page not accessible: %v", when, err)
+		return
+	}
+	b, err := pg.Bytes()
+	if err != nil {
+		p.fail("app-data", "%s: root page not readable: %v", when, err)
+		return
+	}
+	for i := range b {
+		if (i < p.Cfg.PQRootOff || i >= p.Cfg.PQRootOff+pq.SzRoot) && b[i] != appByte(i) {
+			p.fail("app-data", "%s: byte %d of the page that holds the queue header at offset %d was changed (application data of the shared page)", when, i, p.Cfg.PQRootOff)
+			return
+		}
+	}
+	p.E.Probe("shared_root_page_checked")
 }
